@@ -51,6 +51,8 @@ CAT = {
              ('w', 4, (0.0, 0.0, 0.0), (-1.2, 1.9, 1.4), 0.004)], False),
     # a fat mast at low frequency: radius 0.25 m, 1 m segments (4 radii), below 1e-4 wavelength at 0.1 MHz and above it at 0.125 MHz
     'G24': ([('w', 12, (0.0, 0.0, 0.0), (0.0, 0.0, 12.0), 0.25)], True),
+    # a grounded end whose height is a rounding residue below zero (0.3 - 0.1 - 0.2 = -2.8e-17): within the tolerance, hence grounded
+    'G23': ([('w', 4, (0.0, 0.0, 0.3 - 0.1 - 0.2), (0.4, 0.2, 2.0), 0.002)], True),
     'G16': ([('w', 4, (0.2, 0.1, 2.0), (0.0, 0.0, 0.0), 0.002),
              ('w', 2, (0.2, 0.1, 2.0), (1.1, 0.4, 2.1), 0.003)], True),
 }
